@@ -32,6 +32,22 @@ Definition cnt_has (m : list (N * list (N * N * N))) (k idx : N) : bool :=
 Definition cnt_any (m : list (N * list (N * N * N))) (idx : N) : bool :=
   existsb (fun p => existsb (fun e => fst (fst e) =? idx) (snd p)) m.
 
+(** no transaction index twice in one chain's Counter list, no id twice in one chain's notification list *)
+Fixpoint nodupN (l : list N) : bool :=
+  match l with [] => true | x :: r => negb (existsb (N.eqb x) r) && nodupN r end.
+Definition cnt_nodup (m : list (N * list (N * N * N))) : bool :=
+  forallb (fun p => nodupN (map (fun e : N * N * N => fst (fst e)) (snd p))) m.
+(** a chain is told about a child once per role: once as the source's chain, once more only when it is also the
+    chain of the child's destination *)
+Definition cmap_nodup (w : world) (m : list (N * list tok)) : bool :=
+  forallb (fun p : N * list tok =>
+             forallb (fun t => match t with
+                               | TTx i =>
+                                   let n := List.length (filter (tok_eqb t) (snd p)) in
+                                   if chain_of w (fst (fst i)) =? chain_of w (snd (fst i)) then Nat.leb n 2 else Nat.leb n 1
+                               | _ => true
+                               end) (snd p)) m.
+
 Definition rc_ok (r : N * N * N) : bool := fst (fst r) =? 1.
 Definition rc_ret (r : N * N * N) : N := snd r.
 
@@ -192,6 +208,8 @@ Fixpoint seqN1 (n : nat) (from : N) : list N := match n with O => [] | S k => fr
 
 Definition c2_check (w : world) (q : query) (a : c2s) (prev : option bobs) (ob : bobs) : bool :=
   let svcs := seqN1 (N.to_nat (q_nsvc q)) 1 in
+  (* delivered once: a transaction is listed at most once per chain in Counter *)
+  cnt_nodup (o_cnt ob) &&
   forallb (fun f => forallb (fun t =>
      let ic := obs_counter ob f t 0 in
      let rc := obs_counter ob f t 1 in
@@ -269,6 +287,8 @@ Definition c5_check (w : world) (q : query) (all : list item) (bh : N) (ops : li
       (* the record the group is filed under holds only this group's own children (two declared groups never
          share a record) *)
       forallb (fun k => mem_id (fst k) (c5_declared all g)) kids &&
+      (* every chain is told about a child at most once per block *)
+      cmap_nodup w (o_mt ob) && cmap_nodup w (o_to ob) &&
       (* SUCCESS only with every declared child SUCCESS *)
       (if gs =? ST_SUCCESS then (N.of_nat (List.length kids) =? cnt) && forallb (fun k => snd k =? ST_SUCCESS) kids else true) &&
       (* after a failure / timeout every child is in a failure or rollback status *)
@@ -385,6 +405,12 @@ Definition c6_check (w : world) (q : query) (h : N) (a : c6s) (prev : option bob
              then match obs_gst q ob (fst p) with
                   | Some (Some s) => negb (s =? ST_BEGIN)
                   | Some None => false          (* a group whose child was accepted exists *)
+                  | None => true
+                  end &&
+                  (* rolled back as a whole: every child, the already answered ones included *)
+                  match obs_ch q ob (fst p) with
+                  | Some (gs, _, _, kids) =>
+                      if gs =? ST_BEGIN_ROLLBACK then forallb (fun k : txid * N => snd k =? ST_BEGIN_ROLLBACK) kids else true
                   | None => true
                   end
              else true) (c6_grp a).
